@@ -27,7 +27,8 @@ META = {
             "get_interpolation returns R[i][j] = basis_j(target_i) and short-cuts to the identity only under a comparison of "
             "the grids that has no absolute tolerance; every allclose/isclose applied to x-grid values (XGrid.__eq__, "
             "get_interpolation, manipulate.xgrid_check) passes an explicit atol. (5) GUARDS: grids with repeated points or "
-            "fewer than two points, degrees below one and grids with at most `degree` points are refused (enumerated).",
+            "fewer than two points, degrees below one and grids with at most `degree` points are refused (enumerated)."
+            " An accepted grid is stored in ascending order; the internal points in another order as target grid give the permutation matrix, not the identity.",
     "note": "Floating-point accuracy of the sums is not decided; the algebraic statements are, for all nodes.",
     "technique": "partial evaluation with symbolic nodes + polynomial identity testing; exhaustive enumeration of block layouts; tolerance call-site rule",
     "engine": "sa",
